@@ -1,4 +1,5 @@
 import SqfModel.VM.Stack
+import SqfModel.Print
 /-!
 # Operators of the modelled fragment
 
@@ -61,7 +62,8 @@ def nth (xs : List Val) (i : Nat) : Val := xs.getD i .nil
 
 mutual
 /-- `left == right` on non-nil values. `ci` = case-insensitive string comparison. Arrays compare by
-    content; any nil element makes arrays unequal. `fuel` bounds the nesting followed through the heap. -/
+    content; any nil element makes arrays unequal; code compares instruction by instruction.
+    `fuel` bounds the nesting followed through the heap. -/
 def valEq (h : List (List Val)) (ci : Bool) : Nat → Val → Val → Bool
   | 0, _, _ => false
   | f + 1, a, b =>
@@ -71,6 +73,7 @@ def valEq (h : List (List Val)) (ci : Bool) : Nat → Val → Val → Bool
     | .str x, .str y => if ci then lower x == lower y else x == y
     | .ref i, .ref j => i == j || listEq h ci f (h.getD i []) (h.getD j [])
     | .ns i, .ns j => i == j
+    | .code x, .code y => instrsEq h f x y
     | _, _ => false
 def listEq (h : List (List Val)) (ci : Bool) : Nat → List Val → List Val → Bool
   | 0, _, _ => false
@@ -81,6 +84,31 @@ def listEq (h : List (List Val)) (ci : Bool) : Nat → List Val → List Val →
       | _, .nil => false
       | _, _ => valEq h ci f x y) && listEq h ci f xs ys
   | _ + 1, _, _ => false
+/-- `instruction::equals` element-wise (`std::equal` over the two instruction sets) -/
+def instrsEq (h : List (List Val)) : Nat → List Instr → List Instr → Bool
+  | 0, _, _ => false
+  | _ + 1, [], [] => true
+  | f + 1, x :: xs, y :: ys => instrEq h f x y && instrsEq h f xs ys
+  | _ + 1, _, _ => false
+def instrEq (h : List (List Val)) : Nat → Instr → Instr → Bool
+  | 0, _, _ => false
+  | f + 1, x, y =>
+    match x, y with
+    | .push a, .push b =>
+      (match a, b with
+        | .nil, .nil => true
+        | .nil, _ => false
+        | _, .nil => false
+        | _, _ => valEq h false f a b)
+    | .callNular a, .callNular b => a == b
+    | .callUnary a, .callUnary b => a == b
+    | .callBinary a _, .callBinary b _ => a == b
+    | .assignTo a, .assignTo b => a == b
+    | .assignToLocal a, .assignToLocal b => a == b
+    | .getVariable a, .getVariable b => a == b
+    | .makeArray a, .makeArray b => a == b
+    | .endStatement, .endStatement => true
+    | _, _ => false
 end
 
 /-! ### array recursion test (`d_array::recursion_test`) -/
@@ -344,7 +372,7 @@ def uop_case (r : Val) (m : M) : Option OpRes :=
     let hit := match r, v with
       | .nil, _ => false
       | _, .nil => false
-      | _, _ => valEq m.heap false (m.heap.length + 2) r v
+      | _, _ => valEq m.heap false (m.heap.length + 10000) r v
     let s' := Val.sw v (mn || hit) hm tgt
     some (m, [.setFrames (setWhereFound m.ctx.frames switchMagic s')], s')
   | _ => pure' (m.log Diag.runtime_MagicVariableTypeMissmatch) .nil
@@ -398,6 +426,19 @@ def uop_waituntil (r : Val) (m : M) : Option OpRes :=
   | .code c => frame' m (mkFrame c [] (some (.waitUntil 0)))
   | _ => none
 
+def uop_str (r : Val) (m : M) : Option OpRes :=
+  pure' m (.str (strVal m.heap 10000 r))
+
+/-- `compile`: a parse failure raises the error flag without a diagnostic of its own (the parser has
+    already logged) and yields nil -/
+def uop_compile (r : Val) (m : M) : Option OpRes :=
+  match r with
+  | .str s =>
+    match m.parse s with
+    | some is => pure' m (.code is)
+    | none => pure' ((m.log Diag.sqf_ParseError)) .nil
+  | _ => none
+
 def unaryOp (n : Name) (r : Val) (m : M) : Option OpRes :=
   if n == n!"call" then uop_call r m
   else if n == n!"count" then uop_count r m
@@ -419,6 +460,8 @@ def unaryOp (n : Name) (r : Val) (m : M) : Option OpRes :=
   else if n == n!"with" then uop_with r m
   else if n == n!"comment" then uop_comment r m
   else if n == n!"sleep" then uop_sleep r m
+  else if n == n!"str" then uop_str r m
+  else if n == n!"compile" then uop_compile r m
   else if n == n!"scriptdone" || n == n!"isnull" then uop_scriptdone r m
   else if n == n!"terminate" then uop_terminate r m
   else if n == n!"waituntil" then uop_waituntil r m
@@ -448,7 +491,7 @@ def valueEq (h : List (List Val)) (a b : Val) : Bool :=
   | .nil, .nil => true
   | .nil, _ => false
   | _, .nil => false
-  | _, _ => valEq h false (h.length + 2) a b
+  | _, _ => valEq h false (h.length + 10000) a b
 
 def bop__2d (l r : Val) (m : M) : Option OpRes :=
   match l, r with
@@ -488,7 +531,7 @@ def bop__21_3d (l r : Val) (m : M) : Option OpRes :=
   | _, _ => none
 
 def bop_isequalto (l r : Val) (m : M) : Option OpRes :=
-  pure' m (.bool (valEq m.heap false (m.heap.length + 2) l r))
+  pure' m (.bool (valEq m.heap false (m.heap.length + 10000) l r))
 
 def bop__26_26 (l r : Val) (m : M) : Option OpRes :=
   match l, r with
